@@ -114,15 +114,16 @@ def step (st : State) (toks : List String) : State × String :=
     | some self =>
       -- the watcher starts by processing the initial (empty) snapshot
       let w : Membership.Watcher := { self := self }
-      let (d, w') := Membership.watchStep w []
-      ({ st with watcher := w', chan := (({} : Membership.Chan).send d), snap := [], subs := [] }, "ok")
+      let (_, w') := Membership.watchStep w []
+      ({ st with watcher := w', chan := (({} : Membership.Chan).send []), snap := [], subs := [] }, "ok")
     | none => (st, "bad-op")
   | ["mem-snap", s] =>
     match parseMembers s with
     | some snap =>
-      let (d, w') := Membership.watchStep st.watcher snap
-      ({ st with watcher := w', chan := st.chan.send d, snap := snap },
-        s!"published joined={fmtMembers d.joined} left={fmtMembers d.left}")
+      -- the node's own watcher (disconnects, selector update) and then the publication of the processed snapshot
+      let (_, w') := Membership.watchStep st.watcher snap
+      ({ st with watcher := w', chan := st.chan.send snap, snap := snap },
+        s!"published {fmtMembers (sortById snap)}")
     | none => (st, "bad-op")
   | ["mem-sub"] => ({ st with subs := st.subs ++ [{}] }, s!"sub {st.subs.length}")
   | ["mem-read", i] =>
@@ -130,7 +131,7 @@ def step (st : State) (toks : List String) : State × String :=
     | some i =>
       match st.subs[i]? with
       | some sub =>
-        let (d, sub') := sub.poll st.chan
+        let (d, sub') := sub.poll st.watcher.self st.chan
         let out := match d with
           | some d => s!"read [+{fmtMembers d.joined} -{fmtMembers d.left}]"
           | none => "read -"
